@@ -1530,6 +1530,15 @@ def bounded():
     return [Bounded("random concrete programs against the reference EVM", _bounded_programs)]
 
 
+def grounds():
+    """a reported result is a real EVM behaviour `under the standard interpretation of the arithmetic abstractions`: that interpretation
+    is fixed by the NAME of each abstraction (C06's ground: name and role of every table entry denote the same operation)"""
+    from contracts import c06
+    from pyvc.pack import Ground
+
+    return [Ground(f"{PROP}/sevm.abstraction-tables#name-is-the-definition", c06.ground_abstraction_names, sources=("halmos.solve:refine",))]
+
+
 def build_cases(tier="quick"):
     # a reported end state is only real if no other path or frame can change it: ownership of what a forked path
     # gets (C02), exact restoration after a failed call or creation and message construction (C09)
